@@ -574,6 +574,8 @@ pub struct OpsOpts {
     /// make every named import also name the local fragments its targets spread
     /// (needed for a project that `check` accepts)
     pub closed_imports: bool,
+    /// drop fragments that no operation spreads
+    pub cover_fragments: bool,
 }
 
 impl Default for OpsOpts {
@@ -587,6 +589,7 @@ impl Default for OpsOpts {
             cycles: true,
             plain: false,
             closed_imports: false,
+            cover_fragments: false,
             dirs: vec!["src".into(), "src/a".into(), "src/a/b".into(), "src/c".into()],
         }
     }
@@ -739,8 +742,12 @@ fn gen_sel(rng: &mut Rng, cx: &mut SelCtx, parent: &str, depth: usize, is_sub_ro
             f.on == parent || possible.contains(&f.on) || m.possible(&f.on).iter().any(|p| possible.contains(p))
         })
         .collect();
-    if !cands.is_empty() && rng.chance(2, 3) {
-        let n = rng.range(1, 2.min(cands.len()));
+    // fragment expansion multiplies in the type printer: keep spreads shallow and few
+    // (the pinned printer needs seconds to minutes for deeply nested spread chains; that
+    // is a cost of a pure function and not what this workload is after)
+    let spread_ok = if cx.min_global == 0 { depth <= 2 } else { depth <= 1 };
+    if !cands.is_empty() && spread_ok && rng.chance(2, 3) {
+        let n = if cx.min_global == 0 { rng.range(1, 2.min(cands.len())) } else { 1 };
         let mut seen: Vec<String> = Vec::new();
         for _ in 0..n {
             let f = rng.pick(&cands);
@@ -906,7 +913,8 @@ pub fn gen_ops(rng: &mut Rng, m: &SchemaModel, o: &OpsOpts) -> Vec<OpFileModel> 
                 alias_counter: &mut alias_counter,
                 project_salt: salt,
             };
-            let sel = gen_sel(rng, &mut cx, &f.on, 1, false);
+            // fragments start one level down: their bodies stay small
+            let sel = gen_sel(rng, &mut cx, &f.on, 2, false);
             defs.push(OpDef::Fragment { name: f.name.clone(), on: f.on.clone(), sel });
         }
         let mut n_ops = if fi == 0 { rng.range(1, 2) } else { rng.weighted(&[5, 4, 1]) };
@@ -955,7 +963,59 @@ pub fn gen_ops(rng: &mut Rng, m: &SchemaModel, o: &OpsOpts) -> Vec<OpFileModel> 
     if o.closed_imports {
         close_imports(&mut files);
     }
+    if o.cover_fragments {
+        drop_unused_fragments(&mut files);
+    }
     files
+}
+
+/// Removes every fragment that no operation of the project (transitively) spreads.
+/// The pinned checker only looks into a fragment through the operations that spread
+/// it, so a project whose every fragment is covered is one where `check` sees all text.
+pub fn drop_unused_fragments(files: &mut Vec<OpFileModel>) {
+    let mut body: BTreeMap<String, Vec<String>> = BTreeMap::new();
+    let mut used: Vec<String> = Vec::new();
+    for f in files.iter() {
+        for d in &f.defs {
+            match d {
+                OpDef::Fragment { name, sel, .. } => {
+                    let mut sp = Vec::new();
+                    spreads_of(sel, &mut sp);
+                    body.insert(name.clone(), sp);
+                }
+                OpDef::Operation { sel, .. } => spreads_of(sel, &mut used),
+            }
+        }
+    }
+    let mut i = 0;
+    while i < used.len() {
+        let n = used[i].clone();
+        i += 1;
+        for s in body.get(&n).cloned().unwrap_or_default() {
+            if !used.contains(&s) {
+                used.push(s);
+            }
+        }
+    }
+    let mut keep_counter = 0;
+    for f in files.iter_mut() {
+        f.defs.retain(|d| !d.is_fragment() || used.iter().any(|u| Some(u.as_str()) == d.name()));
+        for imp in f.imports.iter_mut() {
+            if let Some(ns) = imp.names.as_mut() {
+                ns.retain(|n| used.contains(n));
+            }
+        }
+        f.imports.retain(|imp| imp.names.as_ref().is_none_or(|ns| !ns.is_empty()));
+        if f.defs.is_empty() {
+            keep_counter += 1;
+            f.defs.push(OpDef::Operation {
+                kind: "query".into(),
+                name: Some(format!("Keep{}_{}", keep_counter, f.style % 1000)),
+                vars: vec![],
+                sel: vec![SelItem::Field { alias: None, name: "__typename".into(), args: vec![], directive: None, sel: None }],
+            });
+        }
+    }
 }
 
 pub fn spreads_of(sel: &[SelItem], out: &mut Vec<String>) {
